@@ -649,6 +649,30 @@ func (env *SpecEnv) evalCall(n *ast.CallExpr) (Val, types.Type, error) {
 			return Val{T: fmt.Sprintf("(forall ((%s Int)) (=> %s %s))", bvq, rng, body.T)}, tBool, nil
 		}
 		return Val{T: fmt.Sprintf("(exists ((%s Int)) (and %s %s))", bvq, rng, body.T)}, tBool, nil
+	case "forallof":
+		// forallof(x, T, body): x ranges over all well-formed values of Go type T
+		id, ok := n.Args[0].(*ast.Ident)
+		if !ok || len(n.Args) != 3 {
+			return Val{}, nil, fmt.Errorf("forallof(x, T, body)")
+		}
+		qt, err := env.lookupType(exprString(n.Args[1]))
+		if err != nil {
+			return Val{}, nil, err
+		}
+		c := env.child()
+		e.n++
+		bvq := fmt.Sprintf("|?%s%d|", id.Name, e.n)
+		c.names[id.Name] = specVal{v: Val{T: bvq}, t: qt}
+		if c.old != nil {
+			oc := c.old.child()
+			oc.names[id.Name] = c.names[id.Name]
+			c.old = oc
+		}
+		body, _, err := c.eval(n.Args[2])
+		if err != nil {
+			return Val{}, nil, err
+		}
+		return Val{T: fmt.Sprintf("(forall ((%s %s)) %s)", bvq, e.S.sortOf(qt), body.T)}, tBool, nil
 	case "fresh":
 		a, at, err := argv(0)
 		if err != nil {
